@@ -22,7 +22,6 @@ Act(ev) ==
     [] ev.op = "submit"  -> Submit(ev.t)
     [] ev.op = "mkblock" -> MkAnyBlock(ev.p, ev.txs)
     [] ev.op = "play"    -> Play(ev.b, ev.res)
-    [] ev.op = "mine"    -> IF Range(ev.txs) = pool /\ NoDupSeq(ev.txs) THEN Mine(ev.txs) ELSE Mine(TopoOrder(pool))
     [] ev.op = "pfm"     -> PlayForMiner(ev.b)
     [] ev.op = "walk"    -> Walk(ev.d, ev.prune, Range(ev.obs.pool), IF Has(ev, "readmit") THEN ev.readmit ELSE <<>>)
     [] ev.op = "restart" -> Restart
@@ -51,6 +50,16 @@ PrevCutsOK ==
              /\ Norm(c.obs) = Obs
              /\ Has(c, "sync") => \E e \in {SyncObs(CurRec)} : c.syncres = e.res /\ Norm(c.sync) = e.obs
 
+(* C13: a mined block's transaction order is the pool's own; it must respect dependencies and anti-dependencies,
+   and a replica that never saw the transactions must reach the producer's state (judged at the pfm event, in its
+   pre-state: the block is already part of blk) *)
+MinedOrderOK(ev) == ~(ev.op = "mkblock" /\ Has(ev, "mined")) \/ KF_PoolOrderAntiDep \/ PoolOrderOK(ev.txs)
+ReplicaOK(ev) ==
+  ~(ev.op = "pfm" /\ Has(ev, "replica")) \/
+  \E e \in {ReplicaObs(ev.b)} :
+     \/ (KF_PoolOrderAntiDep /\ ~PoolOrderOK(blk[ev.b].txs))
+     \/ (ev.replica.res = e.res /\ ev.replica.blockvalid /\ Norm(ev.replica.obs) = ObsOf(e.rec, ev.b))
+
 (* After a known deviation has changed an outcome the node is, by the finding itself, in a state the
    IDEAL design does not have; the rest of that behaviour is not judged (until the next reset). *)
 Tainted == dev # {}
@@ -58,18 +67,20 @@ TStep ==
   /\ l <= Len(Trace) /\ div = NoDiv
   /\ LET ev == Trace[l] IN
      /\ IF Tainted /\ ev.op # "reset" THEN UNCHANGED vars ELSE Act(ev)
-     /\ devAll' = devAll \cup dev'
+     /\ devAll' = devAll \cup dev' \cup (IF KF_PoolOrderAntiDep /\ ev.op = "mkblock" /\ Has(ev, "mined") /\ ~PoolOrderOK(ev.txs)
+                                            THEN {"KF_PoolOrderAntiDep"} ELSE {})
      /\ div' = IF ~PrevCutsOK THEN [at |-> l - 1, tr |-> Trace[l - 1].tr, op |-> Trace[l - 1].op, expres |-> "-", actres |-> "-",
                                      exp |-> Obs, act |-> Trace[l - 1].cuts[1].obs, which |-> "cut"]
                ELSE IF ev.op = "reset" \/ Tainted \/ dev' # {} THEN NoDiv
                ELSE LET r == hist'[Len(hist')].res
                         okLive == Norm(ev.obs) = Obs'
                         okReopen == Has(ev, "robs") => Norm(ev.robs) = Obs'
-                        okCuts == WalkCutsOK(ev) IN
-                    IF r = ev.res /\ okLive /\ okReopen /\ okCuts THEN NoDiv
+                        okCuts == WalkCutsOK(ev)
+                        okMiner == MinedOrderOK(ev) /\ ReplicaOK(ev) IN
+                    IF r = ev.res /\ okLive /\ okReopen /\ okCuts /\ okMiner THEN NoDiv
                     ELSE [at |-> l, tr |-> ev.tr, op |-> ev.op, expres |-> r, actres |-> ev.res, exp |-> Obs',
                           act |-> IF okLive /\ Has(ev, "robs") THEN ev.robs ELSE ev.obs,
-                          which |-> IF r # ev.res THEN "result" ELSE IF ~okLive THEN "live" ELSE IF ~okReopen THEN "reopened" ELSE "cut"]
+                          which |-> IF r # ev.res THEN "result" ELSE IF ~okLive THEN "live" ELSE IF ~okReopen THEN "reopened" ELSE IF ~okCuts THEN "cut" ELSE "miner"]
   /\ l' = l + 1
 TSpec == TInit /\ [][TStep]_tvars
 
